@@ -253,6 +253,16 @@ pub fn gen_scenario(run_seed: u64, variant: &str, tier: Tier) -> E2Scenario {
             let kind = *rf.pick(&["truncate", "truncate", "truncate", "bitflip", "bitflip", "splice", "empty", "badutf8", "vanish", "unreadable"]);
             corruptions.push(Corruption { path: p, kind: kind.into(), a: rf.below(len), b: rf.below(8) });
         }
+        // torn config writes that end shortly after a key: the value is a prefix of what it was
+        let cfg = project.config_path();
+        let text = &tree[&cfg];
+        let keys: Vec<usize> = text.match_indices(": ").map(|(i, _)| i).collect();
+        if !keys.is_empty() {
+            for _ in 0..2 {
+                let k = *rf.pick(&keys);
+                corruptions.push(Corruption { path: cfg.clone(), kind: "truncate".into(), a: (k + 2 + rf.range(1, 4)).min(text.len()), b: 0 });
+            }
+        }
     }
     let faults = FaultSpec {
         sweep: tier == Tier::Thorough && rf.chance(1, 8),
